@@ -204,7 +204,9 @@ Definition jws_verify (r : jws_alg_row) (k : key) (mat : bool) (siglen : N) : re
 (* ---------- where the key comes from ---------- *)
 (* a Key object / a KeySet holding this one key / a KeySet of several keys resolved by
    the "kid" of the (recipient) header / a callable returning the key for that "kid" *)
-Inductive keysrc := SrcKey | SrcSet | SrcKid | SrcCall.
+(* SrcText / SrcTextCall: the raw bytes / str of an oct secret given as the key
+   argument / returned by a callable (normalised by _normalize_key, see import_text) *)
+Inductive keysrc := SrcKey | SrcSet | SrcKid | SrcCall | SrcText | SrcTextCall.
 
 (* KeySet.pick_random_key(alg) on a one-key set, then "Invalid key" ValueError *)
 Definition pick_random (alg : string) (k : key) : res key :=
@@ -222,6 +224,7 @@ Definition guess_key (src : keysrc) (use_random : bool) (alg : string) (k : key)
   | SrcKey => Ok k
   | SrcSet => if use_random then pick_random alg k else Ok k
   | SrcKid | SrcCall => Ok k       (* get_by_kid(kid) / key(obj): the designated key *)
+  | SrcText | SrcTextCall => Ok k  (* OctKey.import_key(text): the oct key of these octets *)
   end.
 
 (* ---------- JWS entry points ---------- *)
@@ -230,11 +233,15 @@ Inductive jws_entry :=
 | JSerFlat | JSerGen | JDesFlat | JDesGen   (* jws.serialize_json / deserialize_json *)
 | J97SerCompact | J97DesCompact      (* rfc7797 compact, b64=false branch *)
 | J97SerJson | J97DesJson            (* rfc7797 json, b64=false branch *)
-| JwtEncode | JwtDecode.             (* jwt.encode / jwt.decode with a JWS registry *)
+| JwtEncode | JwtDecode              (* jwt.encode / jwt.decode with a JWS registry *)
+| JValCompact                        (* jws.extract_compact + jws.validate_compact *)
+| J97SerCompactB64 | J97DesCompactB64   (* rfc7797 compact with "b64": true -> jws.*_compact *)
+| J97SerJsonB64 | J97DesJsonB64.        (* rfc7797 json with "b64": true -> jws.*_json *)
 
 Definition jws_is_sign (e : jws_entry) : bool :=
   match e with
-  | JSerCompact | JSerFlat | JSerGen | J97SerCompact | J97SerJson | JwtEncode => true
+  | JSerCompact | JSerFlat | JSerGen | J97SerCompact | J97SerJson | JwtEncode
+  | J97SerCompactB64 | J97SerJsonB64 => true
   | _ => false
   end.
 (* alg.check_key_type(key) is called on this path *)
@@ -242,7 +249,7 @@ Definition jws_has_type_gate (e : jws_entry) : bool :=
   match e with J97SerJson => false | _ => true end.
 (* key.check_alg(alg) is called on this path *)
 Definition jws_has_alg_gate (e : jws_entry) : bool :=
-  match e with JSerCompact | JwtEncode => true | _ => false end.
+  match e with JSerCompact | JwtEncode | J97SerCompactB64 => true | _ => false end.
 
 Definition when (b : bool) (m : res unit) : res unit := if b then m else Ok tt.
 
